@@ -20,6 +20,10 @@ PROGRAMS = {
     # a program that declares a direct page, and one that addresses that page with absolute operands but declares nothing
     "setdp": ["        SETDP $0E00\n", "        ORG $3000\n", "GO      LDA #$01\n", "        STA $0E10\n", "        RTS\n"],
     "page0e": ["VAR     EQU $0E40\n", "        ORG $0E00\n", "BEGIN   LDA $0E20\n", "        STA VAR\n", "        JMP $0E8F\n", "        RTS\n"],
+    # statements that read exactly the same (unlabelled, same mnemonic, same operand or not, no comment) at different places
+    "twins": ["        ORG $6000\n", "TOP     LDA ,X+\n", "        BEQ OUT\n", "        CMPA #$20\n", "        BEQ OUT\n", "        BNE TOP\n",
+              "        LDA #1\n", "        LDA #1\n", "        BNE TOP\n", "        LBEQ OUT\n", "        LEAX TOP,PCR\n", "        LBEQ TOP\n",
+              "        LEAX OUT,PCR\n", "OUT     RTS\n"],
     "exprs": ["BASE    EQU $1000\n", "SIZE    EQU 16\n", "        ORG $5000\n", "GO      LDX #BASE+SIZE\n", "        LDA BASE+1\n",
               "        LDB #SIZE*2\n", "        LEAX GO+3,PCR\n", "        LDY #GO-2\n", "        FCB SIZE\n", "        RTS\n"],
 }
